@@ -32,6 +32,11 @@ BIN = ("add", "sub", "mul", "div", "lt", "le", "eq", "ne", "min", "max", "fmod",
 LEAF = ("int", "rat", "flt", "sym")
 JUMPY = ("fmod", "rem", "lt", "le", "eq", "ne", "ite")      # discontinuous operators
 
+# operand classes used in the keys of failures that only show up under nesting
+KIND = {**{t: "leaf" for t in ("int", "rat", "flt", "sym")}, **{t: "arith" for t in ("neg", "pow", "add", "sub", "mul", "div", "sqrt")},
+        **{t: "logical" for t in ("lt", "le", "eq", "ne")}, **{t: "select" for t in ("min", "max", "fmod", "rem", "ite")},
+        **{t: "transcendental" for t in ("sin", "cos", "tan", "atan")}, "call": "call"}
+
 # construct names used in violation keys ------------------------------------------------
 SP_NAME = {"int": "Integer", "rat": "Rational", "flt": "Float", "sym": "Symbol", "neg": "Neg", "sqrt": "sqrt",
            "pow": "Pow", "sin": "sin", "cos": "cos", "tan": "tan", "atan": "atan", "add": "Add", "sub": "Sub",
@@ -783,7 +788,7 @@ def attribute(bad):
                     key = f"{fn[d]}/{root}/value"
                     culprit[d].add(root)
             else:
-                key = f"{fn[d]}/nested:{tree[0]}({','.join(k[0] for k in kids)})/value"
+                key = f"{fn[d]}/nested:{root}({','.join(KIND[k[0]] for k in kids)})/value"
         what = ("converted expression evaluates to a different value than the source"
                 if r["error"] is None else f"converted expression cannot be evaluated ({r['error']})")
         o = out.setdefault(key, {"what": what, "data": None, "count": 0})
